@@ -29,9 +29,11 @@ def auth_function(ctx: Ctx) -> Func:
     c = ctx.prog.cls("dds._eval_ctx.EvalMainContext")
     if c is None:
         raise AnchorError("dds._eval_ctx.EvalMainContext not found")
+    from .roles import accepted_attr
+    _acc = accepted_attr(ctx)
     for m in c.methods.values():
         src = ast.unparse(m.node)
-        if "whitelisted_packages" in src and m.name != "__init__" and any(isinstance(n, ast.Return) for n in m.own_nodes()):
+        if _acc in src and m.name != "__init__" and any(isinstance(n, ast.Return) for n in m.own_nodes()):
             return m
     raise AnchorError("role authorisation-test (method of EvalMainContext reading the accepted set) not found")
 
@@ -406,10 +408,12 @@ def run(ctx: Ctx) -> None:
     rep.rule("C14.R14", "inside an evaluation, a keep / data function whose path the analysis did not register (it lives in a module that is not accepted) is refused: the "
                         "lookup of its signature in the evaluation's path map fails (subscript), or a lookup that can answer None is followed by a refusal before the user's function runs")
     _top14, nested14 = find_api_functions(ctx)
+    from .roles import path_map_field as _pmf_role
+    _pmf14 = _pmf_role(ctx)
     n14 = 0
     ncfg = cfg_of(nested14)
     for x in nested14.own_nodes():
-        if isinstance(x, ast.Attribute) and x.attr == "requested_paths" and isinstance(x.ctx, ast.Load):
+        if isinstance(x, ast.Attribute) and x.attr == _pmf14 and isinstance(x.ctx, ast.Load):
             par = nested14.module.parent.get(x)
             if isinstance(par, ast.Subscript) and par.value is x and isinstance(par.ctx, ast.Load):
                 n14 += 1
